@@ -4,6 +4,7 @@
 //!   hx_consts specs <Plan>     one process per plan (an MMTk instance is process-global)
 //!   hx_consts vmplacements     every side/in-header placement of the VM specs (real side_first/side_after)
 //!   hx_consts core             the core spec table and layout constants
+//!   hx_consts stages           the WorkBucketStage table (order + predicates) and scheduler constants
 use mmtk::util::metadata::side_metadata::SideMetadataSpec;
 use mmtk::util::metadata::MetadataSpec;
 use mmtk::vm::*;
@@ -126,8 +127,24 @@ fn main() {
                 c.mark_unallocated, c.mark_unmarked, c.mark_marked, c.block_only, c.mark_line_at_scan_time, c.max_object_size
             );
         }
+        Some("stages") => {
+            // the WorkBucketStage table of the linked crate (order, predicates) + scheduler constants
+            let rows = mmtk::verif::sched::stages();
+            println!(
+                "{{\"local_cache\":{},\"stages\":[{}]}}",
+                mmtk::verif::sched::locally_cached_work_packets::<vvm::VerifVM>(),
+                rows.iter()
+                    .map(|r| format!(
+                        "{{\"index\":{},\"name\":\"{}\",\"is_stw\":{},\"is_sequentially_opened\":{},\"is_first_stw\":{},\"is_always_open\":{},\"is_open_by_default\":{},\"is_enabled_by_default\":{}}}",
+                        r.index, r.name, r.is_stw, r.is_sequentially_opened, r.is_first_stw,
+                        r.is_always_open, r.is_open_by_default, r.is_enabled_by_default
+                    ))
+                    .collect::<Vec<_>>()
+                    .join(",")
+            );
+        }
         _ => {
-            eprintln!("usage: hx_consts specs <Plan> | vmplacements | core | immix");
+            eprintln!("usage: hx_consts specs <Plan> | vmplacements | core | immix | stages");
             std::process::exit(2);
         }
     }
